@@ -47,7 +47,7 @@ Matching == {m \in NewMaps : ObsOk(m, Ev.size, Ev.gets, Ev.walk)}
 ResultOk == /\ Ev.ok = ExpOk /\ (~ExpOk => Ev.err = ExpErr)
             /\ (Ev.op = "get" /\ ExpOk => <<Ev.rv, Ev.rsz>> = map[Ev.a])
 FailedCleanly == Ev.inj > 0 /\ Ev.nfail > 0 /\ ~Ev.ok /\ ObsOk(map, Ev.size, Ev.gets, Ev.walk)
-Why == IF Ev.op = "free" THEN (IF Ev.live # 0 THEN {"leak"} ELSE {})
+Why == IF Ev.op = "free" THEN (IF Ev.live # 0 THEN {"leak"} ELSE {}) \cup (IF ~Ev.copies_ok THEN {"copy"} ELSE {})
        ELSE (IF FailedCleanly THEN {}
              ELSE (IF ~ResultOk THEN {IF Ev.inj > 0 THEN "enomem" ELSE "result"} ELSE {})
                   \cup (IF Matching = {} THEN {IF Ev.inj > 0 THEN "enomem" ELSE "state"} ELSE {}))
